@@ -343,7 +343,7 @@ func TestC09(t *testing.T) {
 		}
 		allowed = append(allowed, i)
 	}
-	nprog := env.Pick(8, 64)
+	nprog := env.Pick(8, 32)
 	const per = 10
 	type prog struct {
 		main string
